@@ -51,6 +51,41 @@ def search_more(prop, cfg, seed, workdir, budget_s=240):
                         return {"op": op.strip()[:2000], "go": g.strip()[:2000], "seed": seed + 1000 * k}, tried
     return None, tried
 
+def replay(prop, cfg, path, workdir):
+    """Re-run the recorded failing input on the current tree: exit 1 if it still fails."""
+    import subprocess
+    d = json.load(open(path))
+    print("replay of %s (%s)" % (path, d.get("kind")))
+    if d.get("kind") != "input":
+        print(json.dumps(d.get("broken", d), indent=1)[:3000])
+        print("this replay names obligations that did not check; re-run: " + d.get("how_to_run", ""))
+        return 1
+    br = lib.build_all(cfg["lean_targets"], cfg["go_cmds"])
+    if not br.go_ok:
+        print("harness does not build against /repo"); return 1
+    op = d["op"]
+    fr = re.compile(cfg["flag"])
+    leanbin = os.path.join(lib.LEAN, ".lake", "build", "bin")
+    for s in cfg["streams"]:
+        if s.get("scenario"):
+            if not op.startswith(s["name"] + " "):
+                continue
+            cmd = [s["scenario"][0].replace("{bin}", lib.BIN)] + op.split(" ")[1:]
+            p = subprocess.run(cmd, stdout=subprocess.PIPE, stderr=subprocess.DEVNULL, timeout=1500)
+            out = p.stdout.decode(errors="replace")
+            bad = [l for l in out.split("\n") if " VIOL" in l]
+            print("\n".join(bad[:10]) or "no VIOL line in this run")
+            return 1 if bad else 0
+        go = [x.replace("{bin}", lib.BIN) for x in s["go"]]
+        lean = [x.replace("{lean}", leanbin) for x in s["lean"]]
+        g = subprocess.run(go, input=(op + "\n").encode(), stdout=subprocess.PIPE, stderr=subprocess.DEVNULL, timeout=600).stdout.decode(errors="replace").strip()
+        l = subprocess.run(lean, input=(op + "\n").encode(), stdout=subprocess.PIPE, stderr=subprocess.DEVNULL, timeout=600).stdout.decode(errors="replace").strip()
+        if g == "bad-op" or not g:
+            continue
+        print("implementation: " + g[:1500]); print("model:          " + l[:1500])
+        return 1 if (fr.search(g) or (g != l and l != "unmodelled")) else 0
+    print("no stream accepts this operation"); return 1
+
 def main():
     ap = argparse.ArgumentParser()
     ap.add_argument("prop")
@@ -63,6 +98,9 @@ def main():
     t0 = time.time()
     workdir = os.path.join(lib.WORK, prop)
     os.makedirs(workdir, exist_ok=True)
+
+    if a.replay:
+        return replay(prop, cfg, a.replay, workdir)
 
     if cfg.get("custom"):
         # properties with their own driver (scenario-based)
